@@ -114,11 +114,93 @@ func main() {
 	if a == 12345 {
 		println("x")
 	}
+	moreForms(a)
 	return
+}
+
+type box struct{ n int }
+
+var theBox box
+
+func getBox(i int) *box { return &theBox }
+func ptrTo(i int) *int  { return &theBox.n }
+func key(i int) string  { return "k" }
+func apply(f func(), n int) int { f(); return n }
+
+// a type and a method whose names make the identifier hint longer than 255 bytes
+type ARegistryOfVeryLongNamedThingsThatExistsOnlyToMakeTheFullyQualifiedNameOfItsMethodsLongerThanTwoHundredAndFiftySixBytes[K comparable, V any] struct{ m map[K]V }
+
+func (r ARegistryOfVeryLongNamedThingsThatExistsOnlyToMakeTheFullyQualifiedNameOfItsMethodsLongerThanTwoHundredAndFiftySixBytes[K, V]) LookupWithAnEquallyLongMethodNameSoThatTheHintPayloadCrossesTheOneByteLengthBoundaryForSure(k K) int {
+	_ = r.m[k]
+	return P(60) // P60
+}
+
+func moreForms(a int) {
+	arr := [4]int{}
+	m := map[string]int{}
+	a++
+	arr[P(30)-30] += P(31) // P30 P31
+	a++
+	m[key(P(32))] *= 2 // P32
+	a++
+	*ptrTo(P(33)) -= 1 // P33
+	a++
+	getBox(P(34)).n++ // P34
+	a++
+	arr[P(35)-35]++ // P35
+	if P(40) > 100 { // P40
+		a++
+	} else if P(41) > 100 { // P41
+		a++
+	} else if P(42) == 42 { // P42
+		a++
+	} else {
+		a--
+	}
+	switch {
+	case P(43) > 100: // P43
+		a++
+	case P(44) == 44: // P44
+		a++
+	}
+	switch a {
+	case P(45): // P45
+		a++
+	case P(46), // P46
+		P(47): // P47
+		a++
+	default:
+		a += P(48) // P48
+	}
+	a += apply(func() {
+		a++
+	}, P(50)) // P50
+	var r ARegistryOfVeryLongNamedThingsThatExistsOnlyToMakeTheFullyQualifiedNameOfItsMethodsLongerThanTwoHundredAndFiftySixBytes[string, int]
+	a += r.LookupWithAnEquallyLongMethodNameSoThatTheHintPayloadCrossesTheOneByteLengthBoundaryForSure("k")
+	for i := P(51); i < P(52); i += P(53) - 52 { // P51 P52 P53
+		a++
+	}
+	lbl := 0
+outer:
+	for {
+		switch {
+		case lbl > P(54)-54: // P54
+			break outer
+		}
+		lbl++
+	}
+	x, y := P(55), P(56) // P55 P56
+	x, y = y+P(57), x // P57
+	defer apply(func() {}, P(58)) // P58
+	if v := P(59); v > 0 { // P59
+		a += v
+	}
+	_, _ = x, y
 }
 `
 
-var reProbe = regexp.MustCompile(`// P(\d+)( P(\d+))?`)
+var reProbe = regexp.MustCompile(`// P(\d+)( P\d+)*`)
+var reProbeN = regexp.MustCompile(`P(\d+)`)
 
 func c19Programs(tier string, rep *evid.Reporter) c19L2 {
 	var res c19L2
@@ -265,16 +347,16 @@ func c19Frames(env *diffrun.Env, rep *evid.Reporter, script string, dms []*sourc
 	want := map[int]int{}
 	multiline := map[int]bool{14: true}
 	for i, l := range strings.Split(c19ProbeSrc, "\n") {
-		for _, mm := range reProbe.FindAllStringSubmatch(l, -1) {
-			n, _ := strconv.Atoi(mm[1])
-			want[n] = i + 1
-			if mm[3] != "" {
-				n2, _ := strconv.Atoi(mm[3])
-				want[n2] = i + 1
+		for _, mk := range reProbe.FindAllString(l, -1) {
+			for _, mm := range reProbeN.FindAllStringSubmatch(mk, -1) {
+				n, _ := strconv.Atoi(mm[1])
+				want[n] = i + 1
 			}
 		}
 	}
 	want[14] = want[13] // the statement starts on P13's line
+	want[50] = want[50] - 2 // the call statement starts two lines above its last argument
+	want[47] = want[46]     // the case clause starts on P46's line
 	want[16] = want[16] - 1 // the communication clause belongs to the select statement, which starts one line above
 	_ = multiline
 	byLine := map[int][]*sourcemap.Mapping{}
